@@ -455,6 +455,8 @@ def _c06_jobs(tier):
     for script in ("fir", "fr", "fiir"):
         j(script, 1, 0, 0, k + 1)          # producer without an event loop: a full queue may drop, never reorder / duplicate / hang
     j("fiiir", 1, 1, 1, k)                  # max_length 1 on the sink
+    j("fiiar", 1, 1, 0, k)                  # event loop re-attached while the sink is stalled
+    j("fiaiilr", 2, 1, 0, k - 1)
     j("fiiiir", 3, 1, 0, k - 1)
     j("fiFiir", 1, 1, 0, k - 1 if q else k)
     def x(script, bound):
